@@ -58,6 +58,7 @@ def run(chk: Check, proj: Project) -> None:
     s5_faithful(chk, proj)
     s5b_serialize_order(chk, proj)
     s6_container_loop(chk, proj)
+    s11_builtins_fed_with_tag_text(chk, proj)
     s7_foreign_leaks(chk, proj)
     s8_built_patterns(chk, proj)
     s9_none_before_check(chk, proj)
@@ -695,6 +696,36 @@ def _django_leaky_helpers() -> Dict[str, str]:
                 if not guarded:
                     out[fn.name] = f"Token.{fn.name} line {call.lineno}: bare next() - StopIteration escapes when the tag text ends early (e.g. an unterminated `_(\"...\"`)"
     return out
+
+
+def s11_builtins_fed_with_tag_text(chk: Check, proj: Project) -> None:
+    chk.rule("S11", "tag text never becomes an argument of a builtin that VALIDATES its argument and raises its own exception type: the name handed to the three-argument `type(...)` in the parsing scope (it refuses NUL characters with ValueError) is built from the tag's registered start tag, not from the component name read from the template")
+    n = 0
+    for m, q, f in _scope(proj):
+        ps = params(f)
+        for c in [x for x in body_walk(f) if isinstance(x, ast.Call) and isinstance(x.func, ast.Name) and x.func.id == "type" and len(x.args) == 3]:
+            n += 1
+            chk.analysed(fkey(m, f))
+            # names the first argument depends on, through local definitions
+            deps: Set[str] = set()
+            todo_ = [c.args[0]]
+            seen_: Set[str] = set()
+            while todo_:
+                e_ = todo_.pop()
+                for x in ast.walk(e_):
+                    if isinstance(x, ast.Name) and x.id not in seen_:
+                        seen_.add(x.id)
+                        if x.id in ps:
+                            deps.add(x.id)
+                        for _s2, v2 in assignments(f, x.id):
+                            if v2 is not None:
+                                todo_.append(v2)
+            # parameters that carry text from the template: the component name (and the token / parser themselves)
+            text_params = {p_ for p_ in deps if p_ in ("name", "token", "parser", "comp_name", "component_name", "text", "contents")}
+            chk.ob("S11", f"{m.name.replace('django_components.', '')}:{q}:type-name-not-from-tag-text", m.loc(c), not text_params,
+                   f"the class name depends on {sorted(deps) or 'constants'} only" if not text_params else
+                   f"`{short(c, 70)}` names the class after `{', '.join(sorted(text_params))}`, text taken from the template: `{{% component \"a\\x00b\" %}}` as the first component tag compiled makes type() raise ValueError ('type name must not contain null characters') instead of TemplateSyntaxError")
+    chk.floor("S11", n, 1)
 
 
 def s7_foreign_leaks(chk: Check, proj: Project) -> None:
